@@ -818,7 +818,9 @@ func ruleOwnGuard(c *Ctx) {
 			}
 		}
 	}
-	c.census("T3-OWN", "per-transaction checks against one declared set", n, 2)
+	// no floor: a design that precomputes its switches elsewhere has no call of this shape; T3 still compares the
+	// guards of the sibling entry points
+	c.census("T3-OWN", "per-transaction checks against one declared set", n, 0)
 }
 
 // ruleLineStarts (C01-LINES): the position mapper's table of line starts is computed from the text itself: the
@@ -828,30 +830,49 @@ func ruleOwnGuard(c *Ctx) {
 // wrong place.
 func ruleLineStarts(c *Ctx) {
 	lpk := c.P.SSAPkg("internal/lsputil")
-	n := 0
+	// the constructor of the mapper and the functions of the package it calls
+	region := map[*ssa.Function]bool{}
+	var work []*ssa.Function
 	for _, f := range c.P.ModuleFuncs() {
-		if f.Pkg != lpk {
-			continue
+		if f.Pkg == lpk && f.Parent() == nil && f.Signature.Recv() == nil && f.Signature.Results().Len() == 1 && typeHasSuffix(f.Signature.Results().At(0).Type(), "lsputil.PositionMapper") {
+			region[f] = true
+			work = append(work, f)
 		}
+	}
+	for len(work) > 0 {
+		f := work[len(work)-1]
+		work = work[:len(work)-1]
 		for _, b := range f.Blocks {
 			for _, ins := range b.Instrs {
-				// a store of an int into an element of an []int field of the mapper, or an append to such a field
+				if call, ok := ins.(ssa.CallInstruction); ok {
+					if cal := call.Common().StaticCallee(); cal != nil && cal.Pkg == lpk && cal.Blocks != nil && !region[cal] {
+						region[cal] = true
+						work = append(work, cal)
+					}
+				}
+			}
+		}
+	}
+	isIntSlice := func(t types.Type) bool { return types.TypeString(t.Underlying(), nil) == "[]int" }
+	n := 0
+	var fns []*ssa.Function
+	for f := range region {
+		fns = append(fns, f)
+	}
+	sort.Slice(fns, func(i, j int) bool { return funcName(fns[i]) < funcName(fns[j]) })
+	for _, f := range fns {
+		for _, b := range f.Blocks {
+			for _, ins := range b.Instrs {
+				// an int stored into an element of an []int, or appended to one, while the mapper is built
 				var val ssa.Value
 				switch x := ins.(type) {
 				case *ssa.Store:
-					if ia, ok := x.Addr.(*ssa.IndexAddr); ok {
-						if ld, ok := ia.X.(*ssa.UnOp); ok {
-							if fa, ok := ld.X.(*ssa.FieldAddr); ok && types.TypeString(fa.Type().Underlying().(*types.Pointer).Elem(), nil) == "[]int" && typeHasSuffix(fa.X.Type(), "lsputil.PositionMapper") {
-								val = x.Val
-							}
-						}
+					if ia, ok := x.Addr.(*ssa.IndexAddr); ok && isIntSlice(ia.X.Type()) {
+						val = x.Val
 					}
-					if fa, ok := x.Addr.(*ssa.FieldAddr); ok && types.TypeString(fa.Type().Underlying().(*types.Pointer).Elem(), nil) == "[]int" && typeHasSuffix(fa.X.Type(), "lsputil.PositionMapper") {
-						if call, ok := x.Val.(*ssa.Call); ok {
-							if bi, ok := call.Call.Value.(*ssa.Builtin); ok && bi.Name() == "append" {
-								val = x.Val
-							}
-						}
+				case *ssa.Call:
+					if bi, ok := x.Call.Value.(*ssa.Builtin); ok && bi.Name() == "append" && isIntSlice(x.Type()) {
+						val = x
 					}
 				}
 				if val == nil {
@@ -902,14 +923,26 @@ func ruleParserState(c *Ctx) {
 		date   bool
 	}
 	// forward flow of a value inside the parser package
-	var flow func(v ssa.Value, depth int, seen map[ssa.Value]bool, out *[]hit)
-	flow = func(v ssa.Value, depth int, seen map[ssa.Value]bool, out *[]hit) {
+	var flowSub func(v ssa.Value, sub []string, depth int, seen map[ssa.Value]bool, out *[]hit)
+	flow := func(v ssa.Value, depth int, seen map[ssa.Value]bool, out *[]hit) { flowSub(v, nil, depth, seen, out) }
+	flowSub = func(v ssa.Value, sub []string, depth int, seen map[ssa.Value]bool, out *[]hit) {
 		if v == nil || seen[v] || depth > 4 || v.Referrers() == nil {
 			return
 		}
 		seen[v] = true
 		for _, r := range *v.Referrers() {
 			switch x := r.(type) {
+			case *ssa.Field:
+				// a part of a struct value of which only the part `sub` carries the state
+				if len(sub) > 0 && sub[0] != fmt.Sprintf("f%d", x.Field) && sub[0] != "?" {
+					continue
+				}
+				if len(sub) > 0 {
+					flowSub(x, sub[1:], depth, seen, out)
+				} else {
+					flowSub(x, nil, depth, seen, out)
+				}
+				continue
 			case *ssa.Store:
 				if x.Val != v {
 					continue
@@ -941,8 +974,9 @@ func ruleParserState(c *Ctx) {
 						typeHasSuffix(bt, "ast.Date") && fieldVarOfAddr(inner).Name() == "Year"})
 					continue
 				}
-				// into a local: later loads of that local carry it
+				// into a local: later loads of the same part of that local carry it
 				if al, ok := root.(*ssa.Alloc); ok {
+					want := append(localPath(x.Addr), sub...)
 					var loads func(a ssa.Value)
 					loads = func(a ssa.Value) {
 						if a.Referrers() == nil {
@@ -951,8 +985,12 @@ func ruleParserState(c *Ctx) {
 						for _, r2 := range *a.Referrers() {
 							switch y := r2.(type) {
 							case *ssa.UnOp:
-								if y.Op == token.MUL {
-									flow(y, depth, seen, out)
+								if lp := localPath(y.X); y.Op == token.MUL && pathsOverlap(want, lp) {
+									var rest []string
+									if len(lp) < len(want) {
+										rest = want[len(lp):] // a larger part was loaded: the state sits below `rest` of it
+									}
+									flowSub(y, rest, depth, seen, out)
 								}
 							case *ssa.FieldAddr:
 								loads(y)
@@ -1173,4 +1211,37 @@ func ruleGroupingSign(c *Ctx) {
 		}
 	}
 	c.census("N-GROUP", "positional cuts of a quantity's text in the formatter", n, 1)
+}
+
+// localPath: the path of field indices / constant element indices from the root allocation to the address
+// ("?" for a non-constant index).
+func localPath(a ssa.Value) []string {
+	var path []string
+	for {
+		switch x := a.(type) {
+		case *ssa.FieldAddr:
+			path = append([]string{fmt.Sprintf("f%d", x.Field)}, path...)
+			a = x.X
+			continue
+		case *ssa.IndexAddr:
+			idx := "?"
+			if k, ok := x.Index.(*ssa.Const); ok && k.Value != nil {
+				idx = "i" + k.Value.ExactString()
+			}
+			path = append([]string{idx}, path...)
+			a = x.X
+			continue
+		}
+		return path
+	}
+}
+
+// pathsOverlap: one path is a prefix of the other (an unknown index matches any index).
+func pathsOverlap(a, b []string) bool {
+	for i := 0; i < len(a) && i < len(b); i++ {
+		if a[i] != b[i] && a[i] != "?" && b[i] != "?" {
+			return false
+		}
+	}
+	return true
 }
